@@ -179,10 +179,22 @@ def aggregate(prop, a, reports, jobs, seed, wall):
                 violations.append((oid, ob, rp))
             else:
                 confirm_faults.append((oid, ob, rp))
-    # --- sentinels must be refuted
+    # --- sentinels: every contract must have refuted sentinels (some case where the deliberately wrong
+    # clause fails); a contract whose sentinels are never refuted looks at nothing
+    by_con = {}
     for cid, case, s in sentinels:
-        if not s["refuted"]:
-            faults.append(f"{cid}[{case}]: sentinel {s['name']} was not refuted (vacuous check?)")
+        by_con.setdefault(cid, []).append(s["refuted"])
+    for cid, flags in by_con.items():
+        if not any(flags):
+            faults.append(f"{cid}: no sentinel was refuted in any case (vacuous check?)")
+    vac_by_con = {}
+    for oid, obs in obligations.items():
+        for o in obs:
+            if o["kind"] in ("sound", "equals"):
+                vac_by_con.setdefault(o["contract"], []).append(bool(o.get("vacuous")))
+    for cid, flags in vac_by_con.items():
+        if flags and all(flags):
+            faults.append(f"{cid}: every soundness obligation is vacuous (assertions unsatisfiable on every path)")
     # --- expected obligations
     exp_file = os.path.join(ROOT, "contracts", "EXPECTED.json")
     expected = {}
